@@ -85,26 +85,28 @@ Definition atm_char (c : N) : list N := [c].
 Definition atm_default : atm_style := mkAtm None None false false false false false false false false.
 Definition atm_is_plain (s : atm_style) : bool := atm_style_eqb s atm_default.
 
-(* Colour::write_foreground_code / write_background_code: [base] = 30 / 40 *)
-Definition atm_colour_code (base : N) (c : atm_colour) : list N :=
+(* Colour::write_foreground_code / write_background_code ([base] = 30 / 40): the SGR
+   parameters written, each a digit string; write_prefix separates ALL parameters by ';' *)
+Definition atm_colour_params (base : N) (c : atm_colour) : list (list N) :=
   match c with
-  | AtBlack => atm_dec base | AtRed => atm_dec (base + 1) | AtGreen => atm_dec (base + 2)
-  | AtYellow => atm_dec (base + 3) | AtBlue => atm_dec (base + 4) | AtPurple => atm_dec (base + 5)
-  | AtCyan => atm_dec (base + 6) | AtWhite => atm_dec (base + 7)
-  | AtFixed n => atm_dec (base + 8) ++ [59; 53; 59] ++ atm_dec n
-  | AtRGB r g b => atm_dec (base + 8) ++ [59; 50; 59] ++ atm_dec r ++ [59] ++ atm_dec g ++ [59] ++ atm_dec b
+  | AtBlack => [atm_dec base] | AtRed => [atm_dec (base + 1)] | AtGreen => [atm_dec (base + 2)]
+  | AtYellow => [atm_dec (base + 3)] | AtBlue => [atm_dec (base + 4)] | AtPurple => [atm_dec (base + 5)]
+  | AtCyan => [atm_dec (base + 6)] | AtWhite => [atm_dec (base + 7)]
+  | AtFixed n => [atm_dec (base + 8); [53]; atm_dec n]
+  | AtRGB r g b => [atm_dec (base + 8); [50]; atm_dec r; atm_dec g; atm_dec b]
   end.
+Definition atm_ocolour_params (base : N) (c : option atm_colour) : list (list N) :=
+  match c with Some c => atm_colour_params base c | None => [] end.
 
-(* the codes of write_prefix, in the order it writes them *)
-Definition atm_flag_codes (s : atm_style) : list (list N) :=
+(* the parameters of write_prefix, in the order it writes them: the flags, the
+   background, the foreground *)
+Definition atm_flag_params (s : atm_style) : list (list N) :=
   (if atm_bold s then [[49]] else []) ++ (if atm_dimmed s then [[50]] else []) ++
   (if atm_italic s then [[51]] else []) ++ (if atm_underline s then [[52]] else []) ++
   (if atm_blink s then [[53]] else []) ++ (if atm_reverse s then [[55]] else []) ++
   (if atm_hidden s then [[56]] else []) ++ (if atm_strike s then [[57]] else []).
-Definition atm_codes (s : atm_style) : list (list N) :=
-  atm_flag_codes s
-  ++ (match atm_bg s with Some c => [atm_colour_code 40 c] | None => [] end)
-  ++ (match atm_fg s with Some c => [atm_colour_code 30 c] | None => [] end).
+Definition atm_params (s : atm_style) : list (list N) :=
+  atm_flag_params s ++ atm_ocolour_params 40 (atm_bg s) ++ atm_ocolour_params 30 (atm_fg s).
 
 Fixpoint atm_join (l : list (list N)) : list N :=
   match l with
@@ -114,7 +116,7 @@ Fixpoint atm_join (l : list (list N)) : list N :=
 
 Definition atm_reset : list N := [27; 91; 48; 109].
 Definition atm_prefix (s : atm_style) : list N :=
-  if atm_is_plain s then [] else [27; 91] ++ atm_join (atm_codes s) ++ [109].
+  if atm_is_plain s then [] else [27; 91] ++ atm_join (atm_params s) ++ [109].
 Definition atm_suffix (s : atm_style) : list N :=
   if atm_is_plain s then [] else atm_reset.
 (* format!("{}", style.paint(text)) *)
@@ -160,3 +162,37 @@ Definition atm_colour_wf (c : atm_colour) : Prop :=
 Definition atm_ocolour_wf (c : option atm_colour) : Prop :=
   match c with Some c => atm_colour_wf c | None => True end.
 Definition atm_wf (s : atm_style) : Prop := atm_ocolour_wf (atm_fg s) /\ atm_ocolour_wf (atm_bg s).
+
+(* ---- what the value means, read through the tables of Spec/Targets.v ------------------ *)
+Definition atm_colour_meaning (c : atm_colour) : colour :=
+  match c with
+  | AtBlack => CAnsi 0 | AtRed => CAnsi 1 | AtGreen => CAnsi 2 | AtYellow => CAnsi 3
+  | AtBlue => CAnsi 4 | AtPurple => CAnsi 5 | AtCyan => CAnsi 6 | AtWhite => CAnsi 7
+  | AtFixed n => CIdx n
+  | AtRGB r g b => CRgb r g b
+  end.
+Definition atm_bits (s : atm_style) : N :=
+  N.lor (if atm_bold s then bit BOLD else 0) (N.lor (if atm_dimmed s then bit DIMMED else 0)
+  (N.lor (if atm_italic s then bit ITALIC else 0) (N.lor (if atm_underline s then bit UNDERLINE else 0)
+  (N.lor (if atm_blink s then bit BLINK else 0) (N.lor (if atm_reverse s then bit INVERT else 0)
+  (N.lor (if atm_hidden s then bit HIDDEN else 0) (if atm_strike s then bit STRIKETHROUGH else 0))))))).
+(* = ad_meaning AdAnsiTerm (atm_abstract s), see Proofs/AnsiTermFnGen.atm_meaning_is_targets *)
+Definition atm_meaning (s : atm_style) : sstyle :=
+  mkStyle (option_map atm_colour_meaning (atm_fg s)) (option_map atm_colour_meaning (atm_bg s)) None (atm_bits s).
+
+(* ---- hand model of anstyle_ansi_term::to_ansi_term over these types ------------------- *)
+Definition atm_named : list atm_colour := [AtBlack; AtRed; AtGreen; AtYellow; AtBlue; AtPurple; AtCyan; AtWhite].
+(* the colour and the flag "also make it bold" (a bright 16-colour value) *)
+Definition atm_conv_colour (c : colour) : atm_colour * bool :=
+  match c with
+  | CAnsi i => (nth (N.to_nat (i mod 8)) atm_named AtBlack, 8 <=? i)
+  | CIdx n => (AtFixed n, false)
+  | CRgb r g b => (AtRGB r g b, false)
+  end.
+Definition atm_of_src (s : sstyle) : atm_style :=
+  let fg := option_map atm_conv_colour (s_fg s) in
+  let e := s_eff s in
+  mkAtm (option_map fst fg) (option_map (fun c => fst (atm_conv_colour c)) (s_bg s))
+        (N.testbit e BOLD || match fg with Some (_, true) => true | _ => false end)
+        (N.testbit e DIMMED) (N.testbit e ITALIC) (N.testbit e UNDERLINE)
+        (N.testbit e BLINK) (N.testbit e INVERT) (N.testbit e HIDDEN) (N.testbit e STRIKETHROUGH).
